@@ -269,15 +269,21 @@ Definition texec := exec tptext tbody toy_plen toy_seal.
 Definition toutputs := outputs tptext tbody toy_plen toy_seal.
 Definition tinit := init tptext tbody.
 
-(** ** Correspondence oracle for C01 (harness/cmd/c01 writes [xcase] terms) *)
-Inductive xbody := XSealed (nonce_hex : String.string) (pid : N) (len : N) | XGarbage.
+(** ** Correspondence oracle for C01 (harness/cmd/c01 writes [xcase] terms)
+
+    Nonces are written as (first four bytes as a big-endian number, counter):
+    numbers parse much faster than string literals. *)
+Definition nonce_of (pre ctr : N) : bytes := be_put 4 pre ++ be_put 8 ctr.
+
+Inductive xbody := XSealed (pre ctr : N) (pid : N) (len : N) | XGarbage.
 
 Inductive xevent :=
 | XEnc (s : side) (pid : N) (len : N)
-| XDeliver (to : side) (hdr_hex : String.string) (b : xbody) (flen : N).
+| XDeliver (to : side) (hlen : N) (pre ctr : N) (b : xbody) (flen : N).
+   (* hlen = min(12, frame length): with fewer than 12 header bytes the frame is too short anyway *)
 
 Inductive xoutcome :=
-| OEnc (nonce_hex : String.string)
+| OEnc (pre ctr : N)
 | OAccept (pid : N)
 | OShort | ODir | OOld | OExhausted | OAuth
 | OReject   (* rejected, error text not recognised by the harness: matches any rejection *)
@@ -289,15 +295,18 @@ Record xcase := mkxcase {
   x_obs : list (xoutcome * N * N) }.   (* outcome, send and recv counter of the acting end afterwards *)
 
 Definition tbody_of (b : xbody) : tbody :=
-  match b with XSealed n p l => TSealed (bytes_of_hex n) p l | XGarbage => TGarbage end.
+  match b with XSealed pre ctr p l => TSealed (nonce_of pre ctr) p l | XGarbage => TGarbage end.
 
 Definition tevent_of (e : xevent) : tevent :=
   match e with
   | XEnc s pid len => EEnc _ _ s (pid, len)
-  | XDeliver to h b flen => EDeliver _ _ to {| f_len := flen; f_nonce := bytes_of_hex h; f_body := tbody_of b |}
+  | XDeliver to hlen pre ctr b flen =>
+      EDeliver _ _ to {| f_len := flen;
+                         f_nonce := if N.eqb hlen 12 then nonce_of pre ctr else repeat x00 (N.to_nat hlen);
+                         f_body := tbody_of b |}
   end.
 
-Definition actor (e : xevent) : side := match e with XEnc s _ _ => s | XDeliver to _ _ _ => to end.
+Definition actor (e : xevent) : side := match e with XEnc s _ _ => s | XDeliver to _ _ _ _ _ => to end.
 
 (** Only what the property speaks about is compared: accepted or rejected,
     which plaintext, and (in [xrun]) both counters.  The rejection reason is
@@ -305,7 +314,7 @@ Definition actor (e : xevent) : side := match e with XEnc s _ _ => s | XDeliver 
     rejection tests (which keeps the property) is not reported. *)
 Definition outcome_eqb (model : output tptext tbody) (o : xoutcome) : bool :=
   match model, o with
-  | OutFrame _ _ f, OEnc h => bytes_eqb (f_nonce _ f) (bytes_of_hex h)
+  | OutFrame _ _ f, OEnc pre ctr => bytes_eqb (f_nonce _ f) (nonce_of pre ctr)
   | OutResult _ _ (Accept p), OAccept pid => N.eqb (fst p) pid
   | OutResult _ _ (Accept _), _ => false
   | OutResult _ _ _, (OShort | ODir | OOld | OExhausted | OAuth | OReject) => true
@@ -352,9 +361,20 @@ Fixpoint list_bytes_eqb (a b : list bytes) : bool :=
   | _, _ => false
   end.
 
-Record ncase := mkncase { n_side : side; n_start : N; n_count : nat; n_obs : list String.string }.
+(** observed nonces, run-length encoded by the harness without loss: (prefix,
+    first counter, number of nonces whose counters follow each other mod 2^64) *)
+Fixpoint run_nonces (n : nat) (pre ctr : N) : list bytes :=
+  match n with
+  | O => []
+  | S n' => nonce_of pre ctr :: run_nonces n' pre ((ctr + 1) mod two64)
+  end.
+
+Definition expand_runs (rs : list (N * N * nat)) : list bytes :=
+  flat_map (fun r => let '(pre, ctr, n) := r in run_nonces n pre ctr) rs.
+
+Record ncase := mkncase { n_side : side; n_start : N; n_count : nat; n_obs : list (N * N * nat) }.
 
 Definition ncase_ok (c : ncase) : bool :=
-  list_bytes_eqb (enc_nonces (n_count c) (n_side c) (n_start c)) (map bytes_of_hex (n_obs c)).
+  list_bytes_eqb (enc_nonces (n_count c) (n_side c) (n_start c)) (expand_runs (n_obs c)).
 
 Definition nonce_mismatches (cs : list ncase) : list N := mismatches_from ncase_ok 0 cs.
